@@ -303,7 +303,7 @@ func (c *Ctx) loadVersionFilter(P string) Obligation {
 	for _, b := range fn.Blocks {
 		// candidate block: the one that feeds phi:latestVersion with the iterated version
 		for _, ins := range b.Instrs {
-			if ph, ok := ins.(*ssa.Phi); ok && ph.Comment == "latestVersion" {
+			if ph, ok := ins.(*ssa.Phi); ok && identName(ph) == "latestVersion" {
 				for i, e := range ph.Edges {
 					if _, isExt := e.(*ssa.Extract); isExt {
 						cand++
@@ -482,7 +482,7 @@ func (c *Ctx) rollbackDeleteRange(P string) Obligation {
 	var phi *ssa.Phi
 	for _, b := range fn.Blocks {
 		for _, ins := range b.Instrs {
-			if p, ok := ins.(*ssa.Phi); ok && p.Comment == "i" {
+			if p, ok := ins.(*ssa.Phi); ok && identName(p) == "i" {
 				phi = p
 			}
 		}
